@@ -14,3 +14,5 @@ def rules(ctx):
     S.staged_root_rules(ctx)
     S.handle_close_rules(ctx)
     S.state_writer_rules(ctx)
+    S.free_verdict_rules(ctx)
+    S.key_compare_rules(ctx)
